@@ -307,6 +307,15 @@ def check(prop, tier):
     for w, rc, out, err in results:
         if rc == 0:
             continue
+        if rc == 87:
+            # the per-case watchdog fired: keep the case for triage, no verdict
+            cur = os.path.join(work, "w%d.cur.mvh" % w)
+            keep = os.path.join(VERIF, "build", "timeouts")
+            os.makedirs(keep, exist_ok=True)
+            if os.path.exists(cur):
+                shutil.copy(cur, os.path.join(keep, "%s-w%d-%d.mvh" % (prop, w, os.getpid())))
+            inconclusive.append("worker %d: a case did not finish within the per-case time limit (kept under build/timeouts)" % w)
+            continue
         src = None
         if rc == 2:
             src = os.path.join(work, "fail-w%d.mvh" % w)
@@ -434,6 +443,9 @@ def main():
         seen = {}
         for w, rc, out, err in res:
             if rc == 0:
+                continue
+            if rc == 87:
+                print("worker", w, "TIMEOUT case:", os.path.join(work, "w%d.cur.mvh" % w))
                 continue
             src = os.path.join(work, "fail-w%d.mvh" % w) if rc == 2 else os.path.join(work, "w%d.cur.mvh" % w)
             if not os.path.exists(src):
